@@ -14,5 +14,3 @@ func readAll(path string) []byte {
 	return b
 }
 
-func runIO(w *vt.Writer, replay string)  { vt.Fatal("mode io not built yet") }
-func runSec(w *vt.Writer, replay string) { vt.Fatal("mode sec not built yet") }
